@@ -49,6 +49,10 @@ func c03Scripts(g *Gen, id string, kind byte) []Action {
 		if rng.Chance(1, 3) {
 			return []Action{{Op: "obs"}, {Op: "next"}, {Op: "panicif"}, {Op: "obs"}} // panics only on routers with a panic hook
 		}
+	case 5:
+		if rng.Chance(1, 2) {
+			return []Action{{Op: "obs"}, {Op: "adderr", S: "E-" + id}, {Op: "next"}, {Op: "panicif"}}
+		}
 	}
 	return nil
 }
@@ -71,6 +75,9 @@ func genC03With(rng *Rng, sc *Scenario, coarse bool) {
 	if rng.Chance(1, 4) {
 		sc.Options.OnPanic = "p0" // some handlers panic; the hook contains it (default script: status 500)
 	}
+	if rng.Chance(1, 4) {
+		sc.Options.OnError = "e0" // default script: obs
+	}
 	nTasks := rng.Range(2, 6)
 	if rng.Chance(1, 2) {
 		nTasks = rng.Range(2, 3)
@@ -86,6 +93,9 @@ func genC03With(rng *Rng, sc *Scenario, coarse bool) {
 		for i := 0; i < k; i++ {
 			rq := g.GenRequest(prev)
 			prev = append(prev, rq)
+			if rng.Chance(1, 12) {
+				rq.Kind = "match" // Router.Match called while requests are in flight (it shares the cache with them)
+			}
 			cl.Reqs = append(cl.Reqs, rq)
 			totalReq++
 		}
